@@ -101,6 +101,7 @@ def solution_single_time_step(
             and (harvest_date >= CurrentDate)
             and (NewCond.crop_mature is False)
             and (NewCond.crop_dead is False)
+            and (NewCond.harvest_flag is False)
         ):
             growing_season = True
         else:
